@@ -19,6 +19,8 @@ import numpy as np
 from . import VERIF
 
 SEED = int(os.environ.get('VERIF_SEED', '0') or 0)
+# evidence/ and replays/ go to /verif unless a mutant run redirects them (tools_seed.py)
+OUT = os.environ.get('NVMC_OUT') or VERIF
 
 
 # --------------------------------------------------------------------------------------------
@@ -295,7 +297,7 @@ def match_known(v, known):
 def report(prop, violations, tier):
     """Print VIOLATION / KNOWN-FINDING lines, store replays, return (exit_code, n_new)."""
     known = load_known()
-    rep_dir = os.path.join(VERIF, 'replays', prop)
+    rep_dir = os.path.join(OUT, 'replays', prop)
     new = {}
     old = {}
     for v in violations:
@@ -324,11 +326,11 @@ def report(prop, violations, tier):
 
 
 def write_evidence(prop, tier, level, coverage, assumptions, wall_s, violations):
-    os.makedirs(os.path.join(VERIF, 'evidence'), exist_ok=True)
+    os.makedirs(os.path.join(OUT, 'evidence'), exist_ok=True)
     ev = dict(property_id=prop, tier=tier, seed=SEED, level=level, coverage=_jsonable(coverage),
               assumptions=list(assumptions), wall_s=round(float(wall_s), 2),
               violations=int(violations))
-    path = os.path.join(VERIF, 'evidence', prop + '.json')
+    path = os.path.join(OUT, 'evidence', prop + '.json')
     tmp = path + '.tmp'
     with open(tmp, 'w') as f:
         json.dump(ev, f, indent=1, default=str)
